@@ -747,6 +747,7 @@ class GenOpts:
     unused: bool = True
     min_comps_used: int = 0
     int_states: bool = False
+    unused_frac: float = 0.25
 
 
 @dataclass
@@ -1013,7 +1014,7 @@ def _gen_once(rng: random.Random, o: GenOpts, seed: int) -> Model:
     unused_I, unused_P = [], []
     if o.unused:
         for n in I:
-            if rng.random() < 0.25:
+            if rng.random() < o.unused_frac:
                 unused_I.append(n)
         for p in P:
             if rng.random() < 0.2 and len(P) - len(unused_P) > 0:
